@@ -230,10 +230,20 @@ def uncovered(code, canon):
     return sorted({tg for tg in re.findall(r"<([A-Za-z][\w-]*)", canon)} - covered_tags(code) - {"math"})
 
 
-def with_ids(t):
+def with_ids(t, label=""):
+    """author ids n0, n1, ... on every element; labels 'oddid:<k>:<value>:...' give element k (counted from the end when negative) the id
+    <value> instead - an EMPTY id or an id of blanks is an attribute the author wrote, and '' is also how a caller says 'no node'"""
     c = t.copy()
     ids = []
-    for k, (path, n) in enumerate(c.walk()):
+    nodes = list(c.walk())
+    odd = None
+    if label.startswith("oddid:"):
+        _, k, value = label.split(":")[:3]
+        odd = (int(k) % len(nodes), {"empty": "", "blank": " "}[value])
+    for k, (path, n) in enumerate(nodes):
+        if odd and k == odd[0]:
+            n.attrs["id"] = odd[1]
+            continue
         n.attrs["id"] = f"n{k}"
         ids.append(f"n{k}")
     return c, ids
@@ -246,7 +256,7 @@ def work_terms(item):
     built = []
     ops = []
     for label, t in cases:
-        ti, ids = with_ids(t)
+        ti, ids = with_ids(t, label)
         d = terms.doc(ti)
         o = [["mathml", d], ["navid"], ["braille", ""], ["braille", "no-such-id"], ["braille", {"r": 1, "k": 0}]]
         for i in ids[:14]:
@@ -274,7 +284,7 @@ def work_terms(item):
             source = d
         n = len(ids)
         names = [("no node", 2, False), ("unknown node", 3, False), ("root node", 4, True)] + [(f"node {i}", 5 + k, i in canon_ids) for k, i in enumerate(ids)] + \
-                [("no node, after position queries", 5 + n + 2, False), ("node n0, after position queries", 5 + n + 3, "n0" in canon_ids), ("root node, after position queries", 5 + n + 4, True)]
+                [("no node, after position queries", 5 + n + 2, False), ("node n0, after position queries", 5 + n + 3, ids[0] in canon_ids), ("root node, after position queries", 5 + n + 4, True)]
         lc = canon_run.label_class(label)
         if lc.startswith("test:"):
             lc = "test:" + t.tag          # the repository-test corpus: classed by the outermost element of the expression
@@ -442,6 +452,10 @@ def main(tier):
             jobs.append(("C", code, cc[i:i + 700]))
     run.count("character_cases", nchar)
     corp = term_corpus(tier)
+    # the depth-1 terms again with ONE element (the root, the first child, a middle one, the last leaf) carrying an empty or blank id
+    odd = [(f"oddid:{k}:{v}:{terms.shape_name(sh)}", terms.build(sh, terms.Filler("mixed"))) for sh in terms.spine_shapes(1) for k in (0, 1, 2, -1) for v in ("empty", "blank")]
+    run.count("odd_id_terms", len(odd))
+    corp = corp + odd
     run.count("terms", len(corp))
     for code in CELL + TEXT:
         for style in STYLES if code in CELL else ["Off", "EndPoints"]:
